@@ -180,7 +180,11 @@ def _field(e, sc, out):
         elif ti.kind == "bool" and tk not in ("true", "false"):
             out.append((11, "hardcoded value of a bool field is not true/false"))
         elif ti.kind == "string" and length is not None and text_kind(length) == "digits":
-            out.append(("cond", "hardcoded string must have the declared literal length"))
+            if isinstance(text, str) and isinstance(length, str):
+                if len(text) != int(length):
+                    out.append((11, "hardcoded string of %d characters declared with length %s" % (len(text), length)))
+            else:
+                out.append(("cond", "hardcoded string must have the declared literal length"))
     # unbounded element in a non-delimited array
     if is_array and not delimited and ti.kind is not None:
         unbounded = ti.kind in ("string", "blob") or (ti.kind == "struct" and not ti.bounded)
